@@ -113,7 +113,7 @@ def check(tier):
         "a callback inside the critical section must violate them (self-test); then one driver script per edge of "
         "bounded MC_MemCache models (all five algorithms, 1-3 shards, phantom inserts, clear / resize / evict_all / "
         "flush) executed on the real cache whose weighter, filter, listener, pipe and value destructor re-enter the "
-        "same cache; a script that does not finish within the watchdog bound (30 s for microsecond operations) is the "
+        "same cache; a script that does not finish within the watchdog bound (120 s for microsecond operations) is the "
         "violation; non-trivial = the script triggers at least one leave notification or holds a handle"),
         assumptions=["re-entrant callbacks perform operations that need the locks but change nothing (never-inserted keys), "
                      "so the specification's expected observations still apply",
